@@ -91,6 +91,7 @@ func ruleExclusionAtReadSites(r *Report, rule string) {
 		d := newDeps(info, fi.Decl.Body)
 		okAll := true
 		nret := 0
+		g := buildCFG(info, fi.Decl.Body)
 		ast.Inspect(fi.Decl.Body, func(n ast.Node) bool {
 			rs, ok := n.(*ast.ReturnStmt)
 			if !ok || len(rs.Results) == 0 {
@@ -100,14 +101,24 @@ func ruleExclusionAtReadSites(r *Report, rule string) {
 				return true
 			}
 			nret++
+			// a return taken only when there is nothing to subtract (deleted == nil) hands out the raw answer
+			nothingDeleted := factMatch(g.GuardsOf(rs), func(fc Fact) bool {
+				x, isEq, isNil := nilTest(info, fc.Expr)
+				return fc.Tag == nil && isNil && isEq == fc.Truth && isField(info, x, "SegmentSnapshot", "deleted")
+			})
 			sl := d.SliceOfExpr(rs.Results[0])
+			if nothingDeleted {
+				if !sliceHasSuffix(sl, "."+a.raw) {
+					okAll = false
+				}
+				return true
+			}
 			if !(sl["fld:SegmentSnapshot.deleted"] && sliceHasSuffix(sl, "."+a.sub) && sliceHasSuffix(sl, "."+a.raw)) {
 				okAll = false
 			}
 			return true
 		})
 		// the subtraction must not be skipped except when deleted == nil
-		g := buildCFG(info, fi.Decl.Body)
 		for _, c := range callsMatching(info, fi.Decl.Body, func(f *types.Func) bool { return f.Name() == a.sub }) {
 			for _, f := range g.GuardsOf(c) {
 				if _, _, isNil := nilTest(info, f.Expr); !isNil {
